@@ -95,6 +95,8 @@ def _rand_component(rng, allow_empty=False):
         " \t\u00a0\u3000",                 # inner whitespace (also multi-byte) stays
         "éß中文\U0001F600Жאก",
         "\u200b\ufeff\u180e\u2060",        # look like blanks but are not White_Space: never trimmed
+        # code points a program might borrow as private placeholders: noncharacters, private use, the replacement character
+        "\ufdd0\ufdd1\ufdef\ufffe\uffff\ufffd\ue000\uf8ff\U0001fffe\U0010ffff\U000f0000\x7f\x1f\x01",
     ]
     n = rng.choice([0, 1, 1, 2, 3, 5, 9]) if allow_empty else rng.choice([1, 1, 2, 3, 5, 9])
     s = "".join(rng.choice(rng.choice(pools)) for _ in range(n))
@@ -257,7 +259,19 @@ def _binary_multi(ctx, count, idx):
         os.makedirs(log)
         argv = []
         want = []
+        # some line-ups also hold generators that cannot be started, or that fail, with arguments of their own: the healthy ones
+        # still receive exactly their own arguments
+        broken = 0
         for g in range(rng.randint(2, 4)):
+            if rng.random() < 0.25:
+                kind = rng.choice(["missing", "exit1"])
+                bname = "gen-exit1-%d_%db" % (n, g)
+                bpath = os.path.join(work, "no-such-generator-%d_%d" % (n, g)) if kind == "missing" else os.path.join(work, bname)
+                if kind == "exit1":
+                    os.symlink(ctx.paths["fakegen"], bpath)
+                bargs = [(_rand_component(rng), _rand_component(rng, True)) for _ in range(rng.choice([1, 2, 4]))]
+                argv += [rng.choice(["-G", "--generator"]), genspec.render(bpath, bargs, rng)]
+                broken += 1
             name = "gen-ok-%d_%d" % (n, g)
             gen = os.path.join(work, name)
             os.symlink(ctx.paths["fakegen"], gen)
@@ -270,9 +284,11 @@ def _binary_multi(ctx, count, idx):
         ctx.note_case(("binmulti", tuple(argv)))
         ctx.stats["binary_multi_runs"] += 1
         replay = {"kind": "binary", "argv": [a.replace(work, "<tmp>") for a in argv] + ["a.slice"], "observed": r.brief()}
-        if r.crashed() or r.status != 0:
-            ctx.violate("binary-multi-failed", "run with %d healthy generators: %s, exit %r" % (len(want), r.crashed(), r.status), replay)
+        if r.crashed() or r.status != (1 if broken else 0):
+            ctx.violate("binary-multi-failed", "run with %d healthy and %d failing generators: %s, exit %r" % (len(want), broken, r.crashed(), r.status), replay)
             continue
+        if broken:
+            ctx.stats["binary_multi_runs_with_failing_generators"] += 1
         prefixes = set()
         for name, args in want:
             cap = [x for x in os.listdir(log) if x.startswith(name + ".") and x.endswith(".stdin")]
